@@ -44,6 +44,9 @@ T = {
  'c19o': ('split PEEL on a loop of static length below the factor, cursor into the loop body', 'C19 edit-log-miscounts'),
  'c18o': ("a second thread's first compile while the first thread is still inside make_namespace()'s first fill", 'C18 A3/H1 (exc:NameError) in stampede / derive runs'),
  'c18p': ('an evaluation that failed below a call earlier in the process (or two threads inside the same callee), then a nested call of that callee', 'C18 A3/H1 (exc:RuntimeError) in failure-mix and multi-thread runs'),
+ 'c17l': ('k > 32 random bits (explicit, or num_randbits=None with a long lost part)', 'C17 draw-count'),
+ 'c19p': ('one pass with two edits in a block of more than ten statements, one at a one-digit and one at a two-digit position', 'C19 forward-unrelated on long_block (needed that root)'),
+ 'c19q': ('lift_context on a program that writes the same context expression at two places', 'C19 forward-unrelated / edit-log-miscounts (needed the root rounds_c and the checks on whole-program passes that report edits)'),
 }
 base = os.path.join(os.path.dirname(os.path.dirname(os.path.abspath(__file__))), 'seeded')
 for mid, (needs, caught) in T.items():
